@@ -6,7 +6,7 @@ cd "${VERIF_HOME:-/verif}/seeded" || exit 2
 for d in ${1:-*}/; do
   id="${d%/}"
   [ -f "$id/meta.json" ] || continue
-  grep -q '"obsolete"' "$id/meta.json" && { echo "$id obsolete (skipped)"; continue; }
+  grep -q '"status": *"obsolete' "$id/meta.json" && { echo "$id obsolete (skipped)"; continue; }
   prop="$(sed -n 's/.*"breaks_property": *"\([^"]*\)".*/\1/p' "$id/meta.json")"
   out="$(ALT=1 "${VERIF_HOME:-/verif}/tools/try_mutant.sh" "${VERIF_HOME:-/verif}/seeded/$id/patch.diff" "$prop" 2>&1)"
   keys="$(echo "$out" | sed -n 's/^ *key=//p' | sort -u | tr '\n' ' ')"
